@@ -132,7 +132,8 @@ def main():
         meta_in = json.load(open(f"{seed}/meta.json"))
         prop = meta_in.get("property", "C??")
         w = re.search(r"/(w\d+)-out/(\d+)$", seed)
-        rnd = "r2" if "/seed2/" in seed else ("r3" if "/seed3/" in seed else ("r4" if "/seed4/" in seed else ("r5" if "/seed5/" in seed else ("r6" if "/seed6/" in seed else ("r7" if "/seed7/" in seed else ("r8" if "/seed8/" in seed else ""))))))
+        _m = re.search(r"/seed(\d+)/", seed)
+        rnd = ("r" + _m.group(1)) if _m else ""
         sid = f"{prop}-{rnd}{w.group(1)}-{w.group(2)}"
         dest = f"/verif/seeded/{sid}"
         res = {"id": sid, "property": prop, "source": seed, "summary": meta_in.get("summary"), "needs_to_manifest": meta_in.get("needs_to_manifest"), "files_touched": meta_in.get("files_touched")}
